@@ -274,7 +274,7 @@ def classes : Hier := [
   ⟨8, [8, 130], []⟩,
   ⟨9, [9], []⟩,
   ⟨10, [10], []⟩,
-  ⟨11, [11], [(1, 22), (2, 23), (3, 24), (5, 25), (6, 26), (17, 27), (19, 28), (21, 29), (22, 30), (39, 31), (40, 32), (42, 33), (43, 34), (48, 35), (49, 36), (50, 37), (51, 38), (73, 39), (75, 40), (106, 41), (108, 42), (118, 43), (119, 44), (146, 45), (147, 46), (148, 47), (149, 48), (150, 49), (151, 50), (158, 51), (163, 52), (166, 53), (167, 54), (168, 55), (169, 56)]⟩,
+  ⟨11, [11], [(1, 22), (2, 23), (3, 24), (5, 25), (6, 26), (17, 27), (19, 28), (21, 29), (22, 30), (39, 31), (40, 32), (41, 33), (42, 34), (43, 35), (48, 36), (49, 37), (50, 38), (51, 39), (73, 40), (75, 41), (106, 42), (108, 43), (118, 44), (119, 45), (146, 46), (147, 47), (148, 48), (149, 49), (150, 50), (151, 51), (158, 52), (163, 53), (166, 54), (167, 55), (168, 56), (169, 57)]⟩,
   ⟨12, [12, 130], []⟩,
   ⟨13, [13, 130], []⟩,
   ⟨14, [14, 129, 128], []⟩,
@@ -282,61 +282,61 @@ def classes : Hier := [
   ⟨16, [16, 14, 129, 128], []⟩,
   ⟨17, [17, 14, 129, 128], []⟩,
   ⟨18, [18, 14, 129, 128], []⟩,
-  ⟨19, [19], [(34, 57), (36, 58), (37, 59), (38, 60), (44, 61), (45, 62), (57, 63), (59, 64), (76, 65), (77, 66), (80, 67), (81, 68), (82, 69), (86, 70), (90, 71), (92, 72), (109, 73), (110, 74), (113, 75), (114, 76), (115, 77), (144, 78), (145, 79), (156, 80), (161, 81)]⟩,
-  ⟨20, [20, 40, 19], [(80, 82), (109, 83), (113, 84), (161, 85)]⟩,
-  ⟨21, [21, 22, 19], [(80, 86), (113, 87)]⟩,
+  ⟨19, [19], [(34, 58), (36, 59), (37, 60), (38, 61), (44, 62), (45, 63), (57, 64), (59, 65), (76, 66), (77, 67), (80, 68), (81, 69), (82, 70), (86, 71), (90, 72), (92, 73), (109, 74), (110, 75), (113, 76), (114, 77), (115, 78), (144, 79), (145, 80), (156, 81), (161, 82)]⟩,
+  ⟨20, [20, 40, 19], [(80, 83), (109, 84), (113, 85), (161, 86)]⟩,
+  ⟨21, [21, 22, 19], [(80, 87), (113, 88)]⟩,
   ⟨22, [22, 19], []⟩,
-  ⟨23, [23, 22, 19], [(80, 88), (113, 89)]⟩,
-  ⟨24, [24, 22, 19], [(80, 90), (113, 91)]⟩,
-  ⟨25, [25, 22, 19], [(80, 92), (113, 93)]⟩,
-  ⟨26, [26, 22, 19], [(80, 94), (113, 95)]⟩,
-  ⟨27, [27, 22, 19], [(80, 96), (113, 97)]⟩,
-  ⟨28, [28, 22, 19], [(80, 98), (113, 99)]⟩,
-  ⟨29, [29, 22, 19], [(80, 100), (113, 101)]⟩,
-  ⟨30, [30, 22, 19], [(80, 102), (113, 103)]⟩,
+  ⟨23, [23, 22, 19], [(80, 89), (113, 90)]⟩,
+  ⟨24, [24, 22, 19], [(80, 91), (113, 92)]⟩,
+  ⟨25, [25, 22, 19], [(80, 93), (113, 94)]⟩,
+  ⟨26, [26, 22, 19], [(80, 95), (113, 96)]⟩,
+  ⟨27, [27, 22, 19], [(80, 97), (113, 98)]⟩,
+  ⟨28, [28, 22, 19], [(80, 99), (113, 100)]⟩,
+  ⟨29, [29, 22, 19], [(80, 101), (113, 102)]⟩,
+  ⟨30, [30, 22, 19], [(80, 103), (113, 104)]⟩,
   ⟨31, [31], []⟩,
   ⟨32, [32, 22, 19], []⟩,
-  ⟨33, [33, 32, 22, 19], [(80, 104), (113, 105)]⟩,
-  ⟨34, [34, 32, 22, 19], [(80, 106), (113, 107)]⟩,
-  ⟨35, [35, 32, 22, 19], [(80, 108), (113, 109)]⟩,
-  ⟨36, [36, 32, 22, 19], [(80, 110), (113, 111)]⟩,
-  ⟨37, [37, 32, 22, 19], [(80, 112), (113, 113)]⟩,
-  ⟨38, [38, 32, 22, 19], [(80, 114), (113, 115)]⟩,
+  ⟨33, [33, 32, 22, 19], [(80, 105), (113, 106)]⟩,
+  ⟨34, [34, 32, 22, 19], [(80, 107), (113, 108)]⟩,
+  ⟨35, [35, 32, 22, 19], [(80, 109), (113, 110)]⟩,
+  ⟨36, [36, 32, 22, 19], [(80, 111), (113, 112)]⟩,
+  ⟨37, [37, 32, 22, 19], [(80, 113), (113, 114)]⟩,
+  ⟨38, [38, 32, 22, 19], [(80, 115), (113, 116)]⟩,
   ⟨39, [39, 42, 40, 19], []⟩,
-  ⟨40, [40, 19], [(92, 116), (110, 117)]⟩,
-  ⟨41, [41, 40, 19], [(109, 118), (161, 119)]⟩,
-  ⟨42, [42, 40, 19], [(109, 120), (161, 121)]⟩,
-  ⟨43, [43, 40, 19], [(109, 122), (161, 123)]⟩,
+  ⟨40, [40, 19], [(92, 117), (110, 118)]⟩,
+  ⟨41, [41, 40, 19], [(109, 119), (161, 120)]⟩,
+  ⟨42, [42, 40, 19], [(109, 121), (161, 122)]⟩,
+  ⟨43, [43, 40, 19], [(109, 123), (161, 124)]⟩,
   ⟨44, [44, 132], []⟩,
   ⟨45, [45, 133, 130], []⟩,
-  ⟨46, [46], [(154, 124), (155, 125), (159, 126), (160, 127)]⟩,
-  ⟨47, [47, 19], [(80, 128), (109, 129), (113, 130)]⟩,
+  ⟨46, [46], [(154, 125), (155, 126), (159, 127), (160, 128)]⟩,
+  ⟨47, [47, 19], [(80, 129), (109, 130), (113, 131)]⟩,
   ⟨48, [48, 47, 19], []⟩,
   ⟨49, [49, 47, 19], []⟩,
   ⟨50, [50, 130], []⟩,
-  ⟨51, [51, 19], [(36, 131), (45, 132), (80, 133), (92, 134), (109, 135), (110, 136), (113, 137), (161, 138)]⟩,
+  ⟨51, [51, 19], [(36, 132), (45, 133), (80, 134), (92, 135), (109, 136), (110, 137), (113, 138), (161, 139)]⟩,
   ⟨52, [52, 130], []⟩,
-  ⟨53, [53, 19], [(80, 139), (109, 140), (113, 141)]⟩,
+  ⟨53, [53, 19], [(80, 140), (109, 141), (113, 142)]⟩,
   ⟨54, [54, 130], []⟩,
-  ⟨55, [55, 19], [(80, 142), (109, 143), (113, 144)]⟩,
+  ⟨55, [55, 19], [(80, 143), (109, 144), (113, 145)]⟩,
   ⟨56, [56, 130], []⟩,
-  ⟨57, [57, 19], [(109, 145)]⟩,
-  ⟨58, [58, 19], [(80, 146), (113, 147)]⟩,
-  ⟨59, [59, 19], [(80, 148), (109, 149), (113, 150)]⟩,
-  ⟨60, [60, 67, 19], [(109, 151)]⟩,
-  ⟨61, [61, 67, 19], [(109, 152)]⟩,
-  ⟨62, [62, 67, 19], [(109, 153)]⟩,
+  ⟨57, [57, 19], [(109, 146)]⟩,
+  ⟨58, [58, 19], [(80, 147), (113, 148)]⟩,
+  ⟨59, [59, 19], [(80, 149), (109, 150), (113, 151)]⟩,
+  ⟨60, [60, 67, 19], [(109, 152)]⟩,
+  ⟨61, [61, 67, 19], [(109, 153)]⟩,
+  ⟨62, [62, 67, 19], [(109, 154)]⟩,
   ⟨63, [63, 67, 19], []⟩,
-  ⟨64, [64, 67, 19], [(36, 154)]⟩,
-  ⟨65, [65, 67, 19], [(109, 155), (113, 156)]⟩,
-  ⟨66, [66, 67, 19], [(80, 157), (113, 158)]⟩,
+  ⟨64, [64, 67, 19], [(36, 155)]⟩,
+  ⟨65, [65, 67, 19], [(109, 156), (113, 157)]⟩,
+  ⟨66, [66, 67, 19], [(80, 158), (113, 159)]⟩,
   ⟨67, [67, 19], []⟩,
   ⟨68, [68, 67, 19], []⟩,
-  ⟨69, [69, 67, 19], [(80, 159), (113, 160)]⟩,
-  ⟨70, [70, 67, 19], [(80, 161), (113, 162)]⟩,
-  ⟨71, [71, 67, 19], [(80, 163), (113, 164)]⟩,
-  ⟨72, [72, 67, 19], [(80, 165), (113, 166)]⟩,
-  ⟨73, [73, 67, 19], [(80, 167), (113, 168)]⟩,
+  ⟨69, [69, 67, 19], [(80, 160), (113, 161)]⟩,
+  ⟨70, [70, 67, 19], [(80, 162), (113, 163)]⟩,
+  ⟨71, [71, 67, 19], [(80, 164), (113, 165)]⟩,
+  ⟨72, [72, 67, 19], [(80, 166), (113, 167)]⟩,
+  ⟨73, [73, 67, 19], [(80, 168), (113, 169)]⟩,
   ⟨74, [74], []⟩,
   ⟨75, [75, 82], []⟩,
   ⟨76, [76, 78], []⟩,
@@ -361,12 +361,12 @@ def classes : Hier := [
   ⟨95, [95], []⟩,
   ⟨96, [96], []⟩,
   ⟨97, [97, 130], []⟩,
-  ⟨98, [98], [(113, 169)]⟩,
+  ⟨98, [98], [(113, 170)]⟩,
   ⟨99, [99], []⟩,
   ⟨100, [100], []⟩,
   ⟨101, [101, 130], []⟩,
   ⟨102, [102], []⟩,
-  ⟨103, [103], [(53, 170), (54, 171), (55, 172), (58, 173), (60, 174), (61, 175), (62, 176), (64, 177), (65, 178), (74, 179), (83, 180), (86, 181), (87, 182), (88, 183), (91, 184), (93, 185), (94, 186), (95, 187), (97, 188), (98, 189), (107, 190), (116, 191), (132, 192), (133, 193), (140, 194), (141, 195), (164, 196), (165, 197), (170, 198), (171, 199), (172, 200), (173, 201), (174, 202), (175, 203), (176, 204), (177, 205)]⟩,
+  ⟨103, [103], [(53, 171), (54, 172), (55, 173), (58, 174), (60, 175), (61, 176), (62, 177), (64, 178), (65, 179), (74, 180), (83, 181), (86, 182), (87, 183), (88, 184), (91, 185), (93, 186), (94, 187), (95, 188), (97, 189), (98, 190), (107, 191), (116, 192), (132, 193), (133, 194), (140, 195), (141, 196), (164, 197), (165, 198), (170, 199), (171, 200), (172, 201), (173, 202), (174, 203), (175, 204), (176, 205), (177, 206)]⟩,
   ⟨104, [104], []⟩,
   ⟨105, [105], []⟩,
   ⟨106, [106, 130], []⟩,
@@ -375,7 +375,7 @@ def classes : Hier := [
   ⟨109, [109], []⟩,
   ⟨110, [110], []⟩,
   ⟨111, [111], []⟩,
-  ⟨112, [112], [(153, 206)]⟩,
+  ⟨112, [112], [(153, 207)]⟩,
   ⟨113, [113, 131], []⟩,
   ⟨114, [114], []⟩,
   ⟨115, [115], []⟩,
@@ -386,7 +386,7 @@ def classes : Hier := [
   ⟨120, [120], []⟩,
   ⟨121, [121, 130], []⟩,
   ⟨122, [122, 130], []⟩,
-  ⟨123, [123, 0], [(20, 207)]⟩,
+  ⟨123, [123, 0], [(20, 208)]⟩,
   ⟨124, [124], []⟩,
   ⟨125, [125], []⟩,
   ⟨126, [126], []⟩,
@@ -397,18 +397,18 @@ def classes : Hier := [
   ⟨131, [131], []⟩,
   ⟨132, [132], []⟩,
   ⟨133, [133], []⟩,
-  ⟨134, [134], [(24, 208), (25, 209), (27, 210), (28, 211)]⟩,
-  ⟨135, [135], [(52, 212), (63, 213), (66, 214), (72, 215), (79, 216), (85, 217), (96, 218), (99, 219), (105, 220), (112, 221)]⟩,
-  ⟨136, [136], [(23, 222), (26, 223), (67, 224), (68, 225), (100, 226), (101, 227), (122, 228), (123, 229)]⟩,
-  ⟨137, [137], [(124, 230), (125, 231), (128, 232), (129, 233)]⟩,
-  ⟨138, [138], [(69, 234), (70, 235), (71, 236), (102, 237), (103, 238), (104, 239), (126, 240), (127, 241), (130, 242), (131, 243)]⟩,
-  ⟨139, [139], [(134, 244), (135, 245), (136, 246), (137, 247), (138, 248), (139, 249)]⟩,
-  ⟨140, [140], [(0, 250), (4, 251)]⟩,
-  ⟨141, [141], [(7, 252), (8, 253), (29, 254), (30, 255)]⟩,
-  ⟨142, [142], [(152, 256), (153, 257)]⟩,
-  ⟨143, [143], [(33, 258), (35, 259)]⟩,
-  ⟨144, [144], [(18, 260), (20, 261), (46, 262), (47, 263)]⟩,
-  ⟨145, [145], [(64, 264), (65, 265), (78, 266), (84, 267), (97, 268), (98, 269), (111, 270), (117, 271)]⟩
+  ⟨134, [134], [(24, 209), (25, 210), (27, 211), (28, 212)]⟩,
+  ⟨135, [135], [(52, 213), (63, 214), (66, 215), (72, 216), (79, 217), (85, 218), (96, 219), (99, 220), (105, 221), (112, 222)]⟩,
+  ⟨136, [136], [(23, 223), (26, 224), (67, 225), (68, 226), (100, 227), (101, 228), (122, 229), (123, 230)]⟩,
+  ⟨137, [137], [(124, 231), (125, 232), (128, 233), (129, 234)]⟩,
+  ⟨138, [138], [(69, 235), (70, 236), (71, 237), (102, 238), (103, 239), (104, 240), (126, 241), (127, 242), (130, 243), (131, 244)]⟩,
+  ⟨139, [139], [(134, 245), (135, 246), (136, 247), (137, 248), (138, 249), (139, 250)]⟩,
+  ⟨140, [140], [(0, 251), (4, 252)]⟩,
+  ⟨141, [141], [(7, 253), (8, 254), (29, 255), (30, 256)]⟩,
+  ⟨142, [142], [(152, 257), (153, 258)]⟩,
+  ⟨143, [143], [(33, 259), (35, 260)]⟩,
+  ⟨144, [144], [(18, 261), (20, 262), (46, 263), (47, 264)]⟩,
+  ⟨145, [145], [(64, 265), (65, 266), (78, 267), (84, 268), (97, 269), (98, 270), (111, 271), (117, 272)]⟩
 ]
 
 /- class ids:
@@ -572,120 +572,120 @@ def aliases : List Alias := [
   ⟨3, 120, 15, 121, 121, 16, false, false⟩,
   ⟨3, 142, 17, 143, 143, 18, false, false⟩,
   ⟨3, 157, 19, 162, 162, 20, false, false⟩,
-  ⟨134, 24, 208, 27, 27, 210, true, false⟩,
-  ⟨134, 25, 209, 28, 28, 211, true, false⟩,
+  ⟨134, 24, 209, 27, 27, 211, true, false⟩,
+  ⟨134, 25, 210, 28, 28, 212, true, false⟩,
   ⟨11, 1, 22, 39, 39, 31, false, false⟩,
   ⟨11, 2, 23, 3, 3, 24, false, false⟩,
   ⟨11, 5, 25, 6, 6, 26, false, false⟩,
   ⟨11, 17, 27, 19, 19, 28, false, false⟩,
   ⟨11, 21, 29, 22, 22, 30, false, false⟩,
-  ⟨11, 40, 32, 41, 41, 272, false, true⟩,
-  ⟨11, 42, 33, 43, 43, 34, false, false⟩,
-  ⟨11, 48, 35, 50, 50, 37, false, false⟩,
-  ⟨11, 49, 36, 51, 51, 38, false, false⟩,
-  ⟨11, 73, 39, 106, 106, 41, false, false⟩,
-  ⟨11, 75, 40, 108, 108, 42, false, false⟩,
-  ⟨11, 118, 43, 119, 119, 44, false, false⟩,
-  ⟨11, 146, 45, 148, 148, 47, false, false⟩,
-  ⟨11, 147, 46, 149, 149, 48, false, false⟩,
-  ⟨11, 150, 49, 151, 151, 50, false, false⟩,
-  ⟨11, 158, 51, 163, 163, 52, false, false⟩,
-  ⟨11, 166, 53, 167, 167, 54, false, false⟩,
-  ⟨11, 168, 55, 169, 169, 56, false, false⟩,
-  ⟨135, 52, 212, 85, 85, 217, true, false⟩,
-  ⟨135, 63, 213, 96, 96, 218, true, false⟩,
-  ⟨135, 66, 214, 99, 99, 219, true, false⟩,
-  ⟨135, 72, 215, 105, 105, 220, true, false⟩,
-  ⟨135, 79, 216, 112, 112, 221, true, false⟩,
-  ⟨19, 34, 57, 36, 36, 58, false, false⟩,
-  ⟨19, 37, 59, 38, 38, 60, false, false⟩,
-  ⟨19, 44, 61, 45, 45, 62, false, false⟩,
-  ⟨19, 57, 63, 90, 90, 71, false, false⟩,
-  ⟨19, 59, 64, 92, 92, 72, false, false⟩,
-  ⟨19, 76, 65, 109, 109, 73, false, false⟩,
-  ⟨19, 77, 66, 110, 110, 74, false, false⟩,
-  ⟨19, 80, 67, 113, 113, 75, false, false⟩,
-  ⟨19, 81, 68, 114, 114, 76, false, false⟩,
-  ⟨19, 82, 69, 115, 115, 77, false, false⟩,
-  ⟨19, 144, 78, 145, 145, 79, false, false⟩,
-  ⟨19, 156, 80, 161, 161, 81, false, false⟩,
-  ⟨20, 80, 82, 113, 113, 84, false, false⟩,
-  ⟨21, 80, 86, 113, 113, 87, false, false⟩,
-  ⟨23, 80, 88, 113, 113, 89, false, false⟩,
-  ⟨24, 80, 90, 113, 113, 91, false, false⟩,
-  ⟨25, 80, 92, 113, 113, 93, false, false⟩,
-  ⟨26, 80, 94, 113, 113, 95, false, false⟩,
-  ⟨27, 80, 96, 113, 113, 97, false, false⟩,
-  ⟨28, 80, 98, 113, 113, 99, false, false⟩,
-  ⟨29, 80, 100, 113, 113, 101, false, false⟩,
-  ⟨30, 80, 102, 113, 113, 103, false, false⟩,
-  ⟨33, 80, 104, 113, 113, 105, false, false⟩,
-  ⟨34, 80, 106, 113, 113, 107, false, false⟩,
-  ⟨35, 80, 108, 113, 113, 109, false, false⟩,
-  ⟨36, 80, 110, 113, 113, 111, false, false⟩,
-  ⟨37, 80, 112, 113, 113, 113, false, false⟩,
-  ⟨38, 80, 114, 113, 113, 115, false, false⟩,
-  ⟨46, 154, 124, 159, 159, 126, false, false⟩,
-  ⟨46, 155, 125, 160, 160, 127, false, false⟩,
-  ⟨47, 80, 128, 113, 113, 130, false, false⟩,
-  ⟨51, 80, 133, 113, 113, 137, false, false⟩,
-  ⟨53, 80, 139, 113, 113, 141, false, false⟩,
-  ⟨55, 80, 142, 113, 113, 144, false, false⟩,
-  ⟨58, 80, 146, 113, 113, 147, false, false⟩,
-  ⟨59, 80, 148, 113, 113, 150, false, false⟩,
-  ⟨66, 80, 157, 113, 113, 158, false, false⟩,
-  ⟨69, 80, 159, 113, 113, 160, false, false⟩,
-  ⟨70, 80, 161, 113, 113, 162, false, false⟩,
-  ⟨71, 80, 163, 113, 113, 164, false, false⟩,
-  ⟨72, 80, 165, 113, 113, 166, false, false⟩,
-  ⟨73, 80, 167, 113, 113, 168, false, false⟩,
-  ⟨136, 26, 223, 23, 23, 222, true, false⟩,
-  ⟨136, 67, 224, 100, 100, 226, true, false⟩,
-  ⟨136, 68, 225, 101, 101, 227, true, false⟩,
-  ⟨136, 123, 229, 122, 122, 228, true, false⟩,
-  ⟨137, 124, 230, 125, 125, 231, true, false⟩,
-  ⟨137, 128, 232, 129, 129, 233, true, false⟩,
-  ⟨138, 69, 234, 102, 102, 237, true, false⟩,
-  ⟨138, 70, 235, 103, 103, 238, true, false⟩,
-  ⟨138, 71, 236, 104, 104, 239, true, false⟩,
-  ⟨138, 126, 240, 127, 127, 241, true, false⟩,
-  ⟨138, 130, 242, 131, 131, 243, true, false⟩,
-  ⟨139, 134, 244, 137, 137, 247, true, false⟩,
-  ⟨139, 135, 245, 138, 138, 248, true, false⟩,
-  ⟨139, 136, 246, 139, 139, 249, true, false⟩,
-  ⟨140, 0, 250, 4, 4, 251, true, false⟩,
-  ⟨141, 7, 252, 8, 8, 253, true, false⟩,
-  ⟨141, 29, 254, 30, 30, 255, true, false⟩,
-  ⟨103, 53, 170, 86, 86, 181, false, false⟩,
-  ⟨103, 54, 171, 87, 87, 182, false, false⟩,
-  ⟨103, 55, 172, 88, 88, 183, false, false⟩,
-  ⟨103, 58, 173, 91, 91, 184, false, false⟩,
-  ⟨103, 60, 174, 93, 93, 185, false, false⟩,
-  ⟨103, 61, 175, 94, 94, 186, false, false⟩,
-  ⟨103, 62, 176, 95, 95, 187, false, false⟩,
-  ⟨103, 64, 177, 97, 97, 188, false, false⟩,
-  ⟨103, 65, 178, 98, 98, 189, false, false⟩,
-  ⟨103, 74, 179, 107, 107, 190, false, false⟩,
-  ⟨103, 83, 180, 116, 116, 191, false, false⟩,
-  ⟨103, 132, 192, 133, 133, 193, false, false⟩,
-  ⟨103, 140, 194, 141, 141, 195, false, false⟩,
-  ⟨103, 164, 196, 165, 165, 197, false, false⟩,
-  ⟨103, 170, 198, 174, 174, 202, false, false⟩,
-  ⟨103, 171, 199, 175, 175, 203, false, false⟩,
-  ⟨103, 172, 200, 176, 176, 204, false, false⟩,
-  ⟨103, 173, 201, 177, 177, 205, false, false⟩,
-  ⟨142, 152, 256, 153, 153, 257, true, false⟩,
-  ⟨143, 33, 258, 35, 35, 259, true, false⟩,
-  ⟨144, 18, 260, 20, 20, 261, true, false⟩,
-  ⟨144, 46, 262, 47, 47, 263, true, false⟩,
-  ⟨145, 64, 264, 97, 97, 268, true, false⟩,
-  ⟨145, 65, 265, 98, 98, 269, true, false⟩,
-  ⟨145, 78, 266, 111, 111, 270, true, false⟩,
-  ⟨145, 84, 267, 117, 117, 271, true, false⟩
+  ⟨11, 40, 32, 41, 41, 33, false, true⟩,
+  ⟨11, 42, 34, 43, 43, 35, false, false⟩,
+  ⟨11, 48, 36, 50, 50, 38, false, false⟩,
+  ⟨11, 49, 37, 51, 51, 39, false, false⟩,
+  ⟨11, 73, 40, 106, 106, 42, false, false⟩,
+  ⟨11, 75, 41, 108, 108, 43, false, false⟩,
+  ⟨11, 118, 44, 119, 119, 45, false, false⟩,
+  ⟨11, 146, 46, 148, 148, 48, false, false⟩,
+  ⟨11, 147, 47, 149, 149, 49, false, false⟩,
+  ⟨11, 150, 50, 151, 151, 51, false, false⟩,
+  ⟨11, 158, 52, 163, 163, 53, false, false⟩,
+  ⟨11, 166, 54, 167, 167, 55, false, false⟩,
+  ⟨11, 168, 56, 169, 169, 57, false, false⟩,
+  ⟨135, 52, 213, 85, 85, 218, true, false⟩,
+  ⟨135, 63, 214, 96, 96, 219, true, false⟩,
+  ⟨135, 66, 215, 99, 99, 220, true, false⟩,
+  ⟨135, 72, 216, 105, 105, 221, true, false⟩,
+  ⟨135, 79, 217, 112, 112, 222, true, false⟩,
+  ⟨19, 34, 58, 36, 36, 59, false, false⟩,
+  ⟨19, 37, 60, 38, 38, 61, false, false⟩,
+  ⟨19, 44, 62, 45, 45, 63, false, false⟩,
+  ⟨19, 57, 64, 90, 90, 72, false, false⟩,
+  ⟨19, 59, 65, 92, 92, 73, false, false⟩,
+  ⟨19, 76, 66, 109, 109, 74, false, false⟩,
+  ⟨19, 77, 67, 110, 110, 75, false, false⟩,
+  ⟨19, 80, 68, 113, 113, 76, false, false⟩,
+  ⟨19, 81, 69, 114, 114, 77, false, false⟩,
+  ⟨19, 82, 70, 115, 115, 78, false, false⟩,
+  ⟨19, 144, 79, 145, 145, 80, false, false⟩,
+  ⟨19, 156, 81, 161, 161, 82, false, false⟩,
+  ⟨20, 80, 83, 113, 113, 85, false, false⟩,
+  ⟨21, 80, 87, 113, 113, 88, false, false⟩,
+  ⟨23, 80, 89, 113, 113, 90, false, false⟩,
+  ⟨24, 80, 91, 113, 113, 92, false, false⟩,
+  ⟨25, 80, 93, 113, 113, 94, false, false⟩,
+  ⟨26, 80, 95, 113, 113, 96, false, false⟩,
+  ⟨27, 80, 97, 113, 113, 98, false, false⟩,
+  ⟨28, 80, 99, 113, 113, 100, false, false⟩,
+  ⟨29, 80, 101, 113, 113, 102, false, false⟩,
+  ⟨30, 80, 103, 113, 113, 104, false, false⟩,
+  ⟨33, 80, 105, 113, 113, 106, false, false⟩,
+  ⟨34, 80, 107, 113, 113, 108, false, false⟩,
+  ⟨35, 80, 109, 113, 113, 110, false, false⟩,
+  ⟨36, 80, 111, 113, 113, 112, false, false⟩,
+  ⟨37, 80, 113, 113, 113, 114, false, false⟩,
+  ⟨38, 80, 115, 113, 113, 116, false, false⟩,
+  ⟨46, 154, 125, 159, 159, 127, false, false⟩,
+  ⟨46, 155, 126, 160, 160, 128, false, false⟩,
+  ⟨47, 80, 129, 113, 113, 131, false, false⟩,
+  ⟨51, 80, 134, 113, 113, 138, false, false⟩,
+  ⟨53, 80, 140, 113, 113, 142, false, false⟩,
+  ⟨55, 80, 143, 113, 113, 145, false, false⟩,
+  ⟨58, 80, 147, 113, 113, 148, false, false⟩,
+  ⟨59, 80, 149, 113, 113, 151, false, false⟩,
+  ⟨66, 80, 158, 113, 113, 159, false, false⟩,
+  ⟨69, 80, 160, 113, 113, 161, false, false⟩,
+  ⟨70, 80, 162, 113, 113, 163, false, false⟩,
+  ⟨71, 80, 164, 113, 113, 165, false, false⟩,
+  ⟨72, 80, 166, 113, 113, 167, false, false⟩,
+  ⟨73, 80, 168, 113, 113, 169, false, false⟩,
+  ⟨136, 26, 224, 23, 23, 223, true, false⟩,
+  ⟨136, 67, 225, 100, 100, 227, true, false⟩,
+  ⟨136, 68, 226, 101, 101, 228, true, false⟩,
+  ⟨136, 123, 230, 122, 122, 229, true, false⟩,
+  ⟨137, 124, 231, 125, 125, 232, true, false⟩,
+  ⟨137, 128, 233, 129, 129, 234, true, false⟩,
+  ⟨138, 69, 235, 102, 102, 238, true, false⟩,
+  ⟨138, 70, 236, 103, 103, 239, true, false⟩,
+  ⟨138, 71, 237, 104, 104, 240, true, false⟩,
+  ⟨138, 126, 241, 127, 127, 242, true, false⟩,
+  ⟨138, 130, 243, 131, 131, 244, true, false⟩,
+  ⟨139, 134, 245, 137, 137, 248, true, false⟩,
+  ⟨139, 135, 246, 138, 138, 249, true, false⟩,
+  ⟨139, 136, 247, 139, 139, 250, true, false⟩,
+  ⟨140, 0, 251, 4, 4, 252, true, false⟩,
+  ⟨141, 7, 253, 8, 8, 254, true, false⟩,
+  ⟨141, 29, 255, 30, 30, 256, true, false⟩,
+  ⟨103, 53, 171, 86, 86, 182, false, false⟩,
+  ⟨103, 54, 172, 87, 87, 183, false, false⟩,
+  ⟨103, 55, 173, 88, 88, 184, false, false⟩,
+  ⟨103, 58, 174, 91, 91, 185, false, false⟩,
+  ⟨103, 60, 175, 93, 93, 186, false, false⟩,
+  ⟨103, 61, 176, 94, 94, 187, false, false⟩,
+  ⟨103, 62, 177, 95, 95, 188, false, false⟩,
+  ⟨103, 64, 178, 97, 97, 189, false, false⟩,
+  ⟨103, 65, 179, 98, 98, 190, false, false⟩,
+  ⟨103, 74, 180, 107, 107, 191, false, false⟩,
+  ⟨103, 83, 181, 116, 116, 192, false, false⟩,
+  ⟨103, 132, 193, 133, 133, 194, false, false⟩,
+  ⟨103, 140, 195, 141, 141, 196, false, false⟩,
+  ⟨103, 164, 197, 165, 165, 198, false, false⟩,
+  ⟨103, 170, 199, 174, 174, 203, false, false⟩,
+  ⟨103, 171, 200, 175, 175, 204, false, false⟩,
+  ⟨103, 172, 201, 176, 176, 205, false, false⟩,
+  ⟨103, 173, 202, 177, 177, 206, false, false⟩,
+  ⟨142, 152, 257, 153, 153, 258, true, false⟩,
+  ⟨143, 33, 259, 35, 35, 260, true, false⟩,
+  ⟨144, 18, 261, 20, 20, 262, true, false⟩,
+  ⟨144, 46, 263, 47, 47, 264, true, false⟩,
+  ⟨145, 64, 265, 97, 97, 269, true, false⟩,
+  ⟨145, 65, 266, 98, 98, 270, true, false⟩,
+  ⟨145, 78, 267, 111, 111, 271, true, false⟩,
+  ⟨145, 84, 268, 117, 117, 272, true, false⟩
 ]
 
 /-- listed known findings (owner, old name) that are still present -/
-def knownBad : List (ClassId × NameId) := [(11, 40)]
+def knownBad : List (ClassId × NameId) := []
 
 /-- reviewed exceptions to the spelling rule -/
 def exceptions : List (List Char × List Char) := [("cnl_avail".toList, "cnl".toList), ("logcnl_avail".toList, "logcnl".toList), ("segment_parameter".toList, "segmented_beta".toList)]
